@@ -104,6 +104,17 @@ def o_ops(spec):
     r2 = must(lambda: reverse_qubit_order(r1, n_qubits=n), "reverse_qubit_order twice")
     R2 = _mat(pgen.canon_of(r2), n)
     require(np.max(np.abs(R2 - R)) <= 1e-10 * scale, "reversing the qubit order twice is not the identity")
+    # without an explicit width the operator's own width is the register: one reversal is the bit reversal on that register
+    if not isinstance(op, (int, float, complex)) and op.n_qubits >= 1:
+        w0 = op.n_qubits
+        require(w0 >= max([q + 1 for k, v in can.items() if abs(v) > 0 for q, _ in k] or [0]), "n_qubits smaller than the support")
+        r0 = must(lambda: reverse_qubit_order(op), "reverse_qubit_order (default width)")
+        want0 = {}
+        for k, v in can.items():
+            kk = tuple(sorted((w0 - 1 - q, p) for q, p in k))
+            want0[kk] = want0.get(kk, 0) + v
+        d0 = pgen.canon_diff(pgen.canon_of(r0), want0)
+        require(d0 <= 1e-8 + 1e-10 * scale, lambda: f"reverse_qubit_order without a width is not the bit reversal on the operator's own {w0} qubits: {r0!r} for {op!r}")
     # expectation values
     rs = np.random.RandomState(spec["sseed"])
     psi = rs.normal(size=2 ** n) + 1j * rs.normal(size=2 ** n)
